@@ -123,10 +123,10 @@ def classify(spec, mode, variant, kind, detail, cols, net_info):
         sig.update(duplicate_position="pressure controller with controlled junction = to junction",
                    failure="PipeflowNotConverged")
         return sig
-    if not upd and kind == "values" and spec["fluid"] != "water" and mode != "hydraulics" and net_info["reverse_flow"] and \
+    if "numba" in variant and kind == "values" and spec["fluid"] != "water" and mode != "hydraulics" and net_info["reverse_flow"] and \
             set(cols) <= {"res_pipe.normfactor_from", "res_pipe.normfactor_mean", "res_pipe.v_from_m_per_s",
                           "res_pipe.v_mean_m_per_s"}:
-        sig.update(columns="gas norm factors / velocities", direction_switched=True)
+        sig.update(clause="engine_twin", columns="gas norm factors / velocities", direction_switched=True)
         return sig
     if not upd and kind == "status" and spec["fluid"] != "water" and net_info["zero_flow_branch"]:
         sig.update(columns="convergence", zero_flow_branch=True, gas=True)
@@ -158,13 +158,13 @@ def net_facts(spec, mode):
 
 def api_differential(ctx, wide=False):
     from harness import gen, c07_api as CA
-    n = 18 if ctx.quick else 300
+    n = 12 if ctx.quick else 300
     if wide:
         n *= 2
     factors = [1.0, 0.7, 1.3]
     n_ok = n_nc = 0
     for i in range(n):
-        r = i % 9
+        r = (i * 4 + i // 9) % 9 if ctx.quick else i % 9          # quick: 3, 4 and 7 (PC, gas-thermal) come early
         prof = ["water", "gas", "heat"][r % 3]
         mode = "hydraulics"
         try:
